@@ -386,6 +386,12 @@ func (g *Gen) builtin(in ssa.Instruction, b *ssa.Builtin, c *ssa.CallCommon, res
 		was := sAnd(g.nonNil(m), app("select", app("select", dom, pObj(m)), k))
 		g.setRawHeap(g.cur, g.mapDomName(ks), sIte(g.nonNil(m), app("store", dom, pObj(m), app("store", app("select", dom, pObj(m)), k, "false")), dom))
 		g.setRawHeap(g.cur, "M_card", sIte(was, app("store", card, pObj(m), app("-", app("select", card, pObj(m)), "1")), card))
+		if g.L.CellSort(mt.Elem()) == "Slice" && !g.M.BV {
+			vl := g.rawHeap(g.cur, "M_vlen", "(Array Int Int)")
+			vsrt := g.L.CellSort(mt.Elem())
+			oldLen := app("sl.len", app("select", app("select", g.mapVal(g.cur, ks, vsrt), pObj(m)), k))
+			g.setRawHeap(g.cur, "M_vlen", sIte(was, app("store", vl, pObj(m), app("-", app("select", vl, pObj(m)), oldLen)), vl))
+		}
 	case "print", "println":
 	case "recover":
 		def(g.L.Zero("Iface"))
@@ -532,6 +538,14 @@ func (g *Gen) mapUpdate(x *ssa.MapUpdate) {
 	}
 	dom, val, card := g.mapDom(g.cur, ks), g.mapVal(g.cur, ks, vs), g.mapCard(g.cur)
 	was := app("select", app("select", dom, pObj(m)), k)
+	// a map has a non-negative number of keys, at least one if it holds k
+	g.assumePC(sAnd(app("<=", "0", app("select", card, pObj(m))), sImp(was, app("<=", "1", app("select", card, pObj(m))))))
+	if vs == "Slice" && !g.M.BV {
+		// ghost: the sum of the lengths of the values of a slice-valued map
+		vl := g.rawHeap(g.cur, "M_vlen", "(Array Int Int)")
+		oldLen := sIte(was, app("sl.len", app("select", app("select", val, pObj(m)), k)), "0")
+		g.setRawHeap(g.cur, "M_vlen", app("store", vl, pObj(m), app("+", app("-", app("select", vl, pObj(m)), oldLen), app("sl.len", v))))
+	}
 	g.setRawHeap(g.cur, "M_card", app("store", card, pObj(m), sIte(was, app("select", card, pObj(m)), app("+", app("select", card, pObj(m)), "1"))))
 	g.setRawHeap(g.cur, g.mapDomName(ks), app("store", dom, pObj(m), app("store", app("select", dom, pObj(m)), k, "true")))
 	g.setRawHeap(g.cur, g.mapValName(ks, vs), app("store", val, pObj(m), app("store", app("select", val, pObj(m)), k, v)))
@@ -554,6 +568,9 @@ func (g *Gen) rangeInstr(x *ssa.Range) {
 	vis := g.mapVis(g.cur, ks)
 	g.setRawHeap(g.cur, g.visName(ks), app("store", vis, o, fmt.Sprintf("((as const (Array %s Bool)) false)", ks)))
 	g.setRawHeap(g.cur, "M_nvis", app("store", g.rawHeap(g.cur, "M_nvis", "(Array Int Int)"), o, "0"))
+	if g.L.CellSort(mt.Elem()) == "Slice" && !g.M.BV {
+		g.setRawHeap(g.cur, "M_vissum", app("store", g.rawHeap(g.cur, "M_vissum", "(Array Int Int)"), o, "0"))
+	}
 	n := g.declare(g.valName(x), "Ptr")
 	g.assume(sEq(n, g.mkptr(o, g.M.IxLit(0))))
 }
@@ -591,13 +608,35 @@ func (g *Gen) nextInstr(x *ssa.Next) {
 		g.assumePC(sImp(sNot(g.nonNil(m)), sEq(cnt, "0")))
 	}
 	g.setRawHeap(g.cur, "M_nvis", sIte(okc, app("store", nv, pObj(it), app("+", cnt, "1")), nv))
+	if vs == "Slice" && !g.M.BV {
+		// sum of the lengths of the values produced so far: below the map's total while keys remain, equal at the end
+		vsum := g.rawHeap(g.cur, "M_vissum", "(Array Int Int)")
+		cur := app("select", vsum, pObj(it))
+		if !g.fnWritesMapOfType(mt) {
+			total := app("select", g.rawHeap(g.cur, "M_vlen", "(Array Int Int)"), pObj(m))
+			g.assumePC(app("<=", "0", cur))
+			g.assumePC(sImp(okc, app("<=", app("+", cur, app("sl.len", v)), total)))
+			g.assumePC(sImp(sAnd(sNot(okc), g.nonNil(m)), sEq(cur, total)))
+		}
+		g.setRawHeap(g.cur, "M_vissum", sIte(okc, app("store", vsum, pObj(it), app("+", cur, app("sl.len", v))), vsum))
+	}
 	g.tupleVals[x] = []string{okc, k, v}
 }
 
 // fnWritesMapOfType: the function under verification updates or deletes from some map of type mt (or calls something
 // that may): then nothing is assumed about how many keys a range over such a map produces.
 func (g *Gen) fnWritesMapOfType(mt *types.Map) bool {
-	for _, b := range g.fn.Blocks {
+	// only what happens while the iteration is in progress matters: the blocks of the loop whose header is the
+	// block being generated (the `next` instruction of a range loop sits in its header)
+	var blocks []*ssa.BasicBlock
+	if l := g.loopOf[g.curBlock]; l != nil {
+		for b := range l.Blocks {
+			blocks = append(blocks, b)
+		}
+	} else {
+		blocks = g.fn.Blocks
+	}
+	for _, b := range blocks {
 		for _, in := range b.Instrs {
 			switch in := in.(type) {
 			case *ssa.MapUpdate:
@@ -700,6 +739,11 @@ func (g *Gen) callLoopEffect(in ssa.CallInstruction, l *Loop) (regs []Region, al
 				if v := paramOf(id.Name); v != nil {
 					r, fresh, ok = g.invAddr(v, l)
 				}
+			}
+		case *ast.CallExpr:
+			// ghost(x) with a loop-variant x: some object's ghost state; over-approximated by all ghost state
+			if id, isId := a.Fun.(*ast.Ident); isId && id.Name == "ghost" {
+				r, fresh, ok = Region{AllObjs: true, Sorts: []string{"GInt"}}, false, true
 			}
 		}
 		if !ok {
